@@ -113,8 +113,12 @@ func cmdVerify(args []string) {
 	dump := fs.String("dump", "", "obligation id (substring) to dump as SMT-LIB to stdout")
 	all := fs.Bool("all", false, "run all solvers")
 	verbose := fs.Bool("v", false, "print every obligation")
+	useCache := fs.Bool("cache", false, "reuse and record proved scripts in the answer cache (as the check command does)")
 	unq := fs.Bool("unq", false, "for undecided obligations, look for a candidate model with quantified facts removed (debugging aid)")
 	fs.Parse(args)
+	if *useCache {
+		initAnswerCache()
+	}
 	g := mustLoad()
 	keys := fs.Args()
 	if len(keys) == 0 {
